@@ -1399,6 +1399,318 @@ def _fold_constant_tests(fn: ast.FunctionDef) -> int:
   return n
 
 
+# --------------------------------------------------------------------------- dispatch tables -> if chains
+_DISPATCH_MAX_KEYS = 16
+_DISPATCH_MAX_REST = 30
+
+
+def _key_ok(k: ast.AST) -> bool:
+  if isinstance(k, ast.Constant):
+    return True
+  c = _chain(k) if k is not None else None
+  return bool(c) and '.' in c
+
+
+def _dict_literal(fn: ast.FunctionDef, tree: ast.Module, e: ast.AST, before: List[ast.stmt]) -> Optional[ast.Dict]:
+  """The dict literal a name denotes: a local bound once (earlier, at the top level of the function) or a
+  module-level constant; never mutated by subscript stores or method calls."""
+  if isinstance(e, ast.Dict):
+    d = e
+  elif isinstance(e, ast.Name):
+    name = e.id
+    local = [st for st in before if isinstance(st, (ast.Assign, ast.AnnAssign))
+             and any(isinstance(t, ast.Name) and t.id == name for t in (st.targets if isinstance(st, ast.Assign) else [st.target]))]
+    stores = sum(1 for x in ast.walk(fn) if isinstance(x, ast.Name) and x.id == name and isinstance(x.ctx, (ast.Store, ast.Del)))
+    if len(local) == 1 and stores == 1:
+      d, scope = local[0].value, fn
+    elif stores == 0 and name not in {a.arg for a in fn.args.args + fn.args.kwonlyargs}:
+      glob = [st for st in tree.body if isinstance(st, (ast.Assign, ast.AnnAssign))
+              and any(isinstance(t, ast.Name) and t.id == name for t in (st.targets if isinstance(st, ast.Assign) else [st.target]))]
+      if len(glob) != 1:
+        return None
+      d, scope = glob[0].value, tree
+    else:
+      return None
+    if not isinstance(d, ast.Dict):
+      return None
+    # no mutation anywhere in the scope that owns it
+    for x in ast.walk(scope):
+      if isinstance(x, ast.Subscript) and isinstance(x.value, ast.Name) and x.value.id == name and isinstance(x.ctx, (ast.Store, ast.Del)):
+        return None
+      if isinstance(x, ast.Call) and isinstance(x.func, ast.Attribute) and isinstance(x.func.value, ast.Name) \
+          and x.func.value.id == name and x.func.attr in ('update', 'pop', 'setdefault', 'clear', 'popitem', '__setitem__'):
+        return None
+  else:
+    return None
+  if not (0 < len(d.keys) <= _DISPATCH_MAX_KEYS) or not all(_key_ok(k) for k in d.keys):
+    return None
+  return d
+
+
+def _lookup_in(stmt: ast.stmt, fn, tree, before) -> Optional[Tuple[ast.AST, ast.Dict, ast.AST, Optional[ast.AST], bool]]:
+  """(lookup expression, table, key expression, default or None, raises-on-miss) for the first `D[K]` / `D.get(K[, d])`
+  over a dict literal in the statement's own expressions (not in nested blocks)."""
+  exprs: List[ast.AST] = []
+  if isinstance(stmt, (ast.Assign, ast.AnnAssign, ast.Return, ast.Expr)):
+    if stmt.value is not None:
+      exprs.append(stmt.value)
+  else:
+    return None
+  for e in exprs:
+    for x in ast.walk(e):
+      if isinstance(x, (ast.Lambda, ast.ListComp, ast.GeneratorExp, ast.DictComp, ast.SetComp)):
+        # a lookup under a binder may depend on bound variables: skip statements that contain binders altogether
+        if any(isinstance(y, ast.Subscript) or (isinstance(y, ast.Call) and isinstance(y.func, ast.Attribute) and y.func.attr == 'get')
+               for y in ast.walk(x)):
+          return None
+    for x in ast.walk(e):
+      if isinstance(x, ast.Subscript) and isinstance(x.ctx, ast.Load) and not isinstance(x.slice, ast.Slice):
+        d = _dict_literal(fn, tree, x.value, before)
+        if d is not None and _chain(x.slice) and _pure_expr(x.slice):
+          return x, d, x.slice, None, True
+      if isinstance(x, ast.Call) and isinstance(x.func, ast.Attribute) and x.func.attr == 'get' and 1 <= len(x.args) <= 2 and not x.keywords:
+        d = _dict_literal(fn, tree, x.func.value, before)
+        if d is not None and _chain(x.args[0]) and _pure_expr(x.args[0]):
+          return x, d, x.args[0], (x.args[1] if len(x.args) == 2 else ast.Constant(value=None)), False
+  return None
+
+
+class _ReplaceNode(ast.NodeTransformer):
+
+  def __init__(self, target: ast.AST, repl: ast.AST):
+    self.target, self.repl = target, repl
+
+  def visit(self, node):
+    if node is self.target:
+      return copy.deepcopy(self.repl)
+    return super().visit(node)
+
+
+class _SubstName(ast.NodeTransformer):
+  """Loads of `name` become `value`; `name is (not) None` is decided on the spot."""
+
+  def __init__(self, name: str, value: ast.AST):
+    self.name, self.value = name, value
+
+  def visit_Compare(self, n: ast.Compare):
+    if len(n.ops) == 1 and isinstance(n.ops[0], (ast.Is, ast.IsNot)) and isinstance(n.left, ast.Name) and n.left.id == self.name \
+        and isinstance(n.comparators[0], ast.Constant) and n.comparators[0].value is None:
+      is_none = isinstance(self.value, ast.Constant) and self.value.value is None
+      return ast.copy_location(ast.Constant(value=is_none if isinstance(n.ops[0], ast.Is) else not is_none), n)
+    return self.generic_visit(n)
+
+  def visit_Name(self, n: ast.Name):
+    if n.id == self.name and isinstance(n.ctx, ast.Load):
+      return ast.copy_location(copy.deepcopy(self.value), n)
+    return n
+
+
+def _simplify_calls(node: ast.AST, cls_name: Optional[str]) -> None:
+  """getattr(x, 'c') -> x.c ; operator.attrgetter('c')(x) -> x.c ; Cls.m(self, a) inside Cls -> self.m(a)."""
+  class S(ast.NodeTransformer):
+    def visit_Call(self, c: ast.Call):
+      self.generic_visit(c)
+      if isinstance(c.func, ast.Name) and c.func.id == 'getattr' and len(c.args) == 2 and not c.keywords \
+          and isinstance(c.args[1], ast.Constant) and isinstance(c.args[1].value, str) and c.args[1].value.isidentifier():
+        return ast.copy_location(ast.Attribute(value=c.args[0], attr=c.args[1].value, ctx=ast.Load()), c)
+      if isinstance(c.func, ast.Call) and _chain(c.func.func) in ('operator.attrgetter', 'attrgetter') and len(c.func.args) == 1 \
+          and isinstance(c.func.args[0], ast.Constant) and isinstance(c.func.args[0].value, str) \
+          and c.func.args[0].value.isidentifier() and len(c.args) == 1 and not c.keywords:
+        return ast.copy_location(ast.Attribute(value=c.args[0], attr=c.func.args[0].value, ctx=ast.Load()), c)
+      if cls_name and isinstance(c.func, ast.Attribute) and isinstance(c.func.value, ast.Name) and c.func.value.id == cls_name \
+          and c.args and isinstance(c.args[0], ast.Name) and c.args[0].id == 'self':
+        return ast.copy_location(ast.Call(func=ast.Attribute(value=ast.Name(id='self', ctx=ast.Load()), attr=c.func.attr, ctx=ast.Load()),
+                                          args=c.args[1:], keywords=c.keywords), c)
+      return c
+  S().visit(node)
+  ast.fix_missing_locations(node)
+
+
+def _propagate_simple_locals(stmts: List[ast.stmt], suffix: str, params: Set[str]) -> None:
+  """Within one expanded arm: `x__dN = <constant | global attribute chain | x.attr chain>` bound once in the arm is
+  substituted into the later statements of the arm."""
+  for _ in range(8):
+    changed = False
+    for i, st in enumerate(stmts):
+      if isinstance(st, ast.Assign) and len(st.targets) == 1 and isinstance(st.targets[0], ast.Name) \
+          and st.targets[0].id.endswith(suffix):
+        name = st.targets[0].id
+        v = st.value
+        simple = isinstance(v, ast.Constant) or (_chain(v) is not None)
+        if not simple:
+          continue
+        stores = sum(1 for b in stmts for x in ast.walk(b) if isinstance(x, ast.Name) and x.id == name and isinstance(x.ctx, (ast.Store, ast.Del)))
+        if stores != 1:
+          continue
+        rest = stmts[i + 1:]
+        sub = _SubstName(name, v)
+        stmts[i + 1:] = [sub.visit(b) for b in rest]
+        del stmts[i]
+        changed = True
+        break
+    if not changed:
+      break
+
+
+def _splice_closures(stmts: List[ast.stmt], closures: Dict[str, ast.FunctionDef], suffix: str) -> List[ast.stmt]:
+  """`return f()` / `x = f()` / `f()` where f is a parameterless straight-line local closure ending in its only
+  return: the closure body takes the place of the call (its own locals get the arm's suffix)."""
+  out: List[ast.stmt] = []
+  for st in stmts:
+    v = st.value if isinstance(st, (ast.Return, ast.Assign, ast.Expr)) else None
+    if not (isinstance(v, ast.Call) and isinstance(v.func, ast.Name) and v.func.id in closures and not v.args and not v.keywords):
+      out.append(st)
+      continue
+    c = closures[v.func.id]
+    body = _strip_doc(c.body)
+    straight = body and isinstance(body[-1], ast.Return) and all(
+        isinstance(b, (ast.Assign, ast.AnnAssign, ast.Expr, ast.Import, ast.ImportFrom, ast.Pass)) for b in body[:-1]) \
+        and not any(isinstance(x, (ast.Return, ast.Yield, ast.YieldFrom, ast.Global, ast.Nonlocal)) for b in body[:-1] for x in ast.walk(b))
+    if not straight:
+      out.append(st)
+      continue
+    own = {x.id for b in body for x in ast.walk(b) if isinstance(x, ast.Name) and isinstance(x.ctx, ast.Store)}
+    ren = {a: f'{a}__{c.name}{suffix}' for a in own}
+    new = [_Rename(ren).visit(copy.deepcopy(b)) for b in body]
+    ret = new.pop()
+    for b in new:
+      ast.copy_location(b, st)
+      out.append(b)
+    if isinstance(st, ast.Return):
+      r = ast.Return(value=ret.value)
+    elif isinstance(st, ast.Assign):
+      r = ast.Assign(targets=st.targets, value=ret.value if ret.value is not None else ast.Constant(value=None), lineno=st.lineno)
+    else:
+      r = ast.Expr(value=ret.value if ret.value is not None else ast.Constant(value=None))
+    ast.copy_location(r, st)
+    ast.fix_missing_locations(r)
+    out.append(r)
+  return out
+
+
+def _trim_dead(stmts: List[ast.stmt]) -> None:
+  """Drops the statements that follow an unconditional raise/return/continue/break in a block (recursively)."""
+  for i, st in enumerate(stmts):
+    for fld in ('body', 'orelse', 'finalbody'):
+      b = getattr(st, fld, None)
+      if isinstance(b, list) and not isinstance(st, (ast.FunctionDef, ast.ClassDef)):
+        _trim_dead(b)
+    if isinstance(st, ast.Try):
+      for h in st.handlers:
+        _trim_dead(h.body)
+    if isinstance(st, (ast.Raise, ast.Return, ast.Continue, ast.Break)):
+      del stmts[i + 1:]
+      return
+
+
+def _expand_dispatch_in_function(fn: ast.FunctionDef, tree: ast.Module, cls_name: Optional[str], counter: List[int]) -> int:
+  n = 0
+  for _ in range(3):
+    body = fn.body
+    hit = None
+    for i, st in enumerate(body):
+      lk = _lookup_in(st, fn, tree, body[:i])
+      if lk is not None:
+        hit = (i, st, lk)
+        break
+    if hit is None:
+      break
+    i, st, (expr, table, key, default, raises) = hit
+    rest = body[i + 1:]
+    if len(rest) > _DISPATCH_MAX_REST:
+      break
+    counter[0] += 1
+    params = {a.arg for a in fn.args.args + fn.args.kwonlyargs + fn.args.posonlyargs}
+    direct = isinstance(st, ast.Assign) and st.value is expr and len(st.targets) == 1 and isinstance(st.targets[0], ast.Name) \
+        and sum(1 for x in ast.walk(fn) if isinstance(x, ast.Name) and x.id == st.targets[0].id and isinstance(x.ctx, (ast.Store, ast.Del))) == 1
+    arm_stmts = [st] + rest
+    assigned = {x.id for b in arm_stmts for x in ast.walk(b) if isinstance(x, ast.Name) and isinstance(x.ctx, ast.Store)} - params
+    # names bound in the tail that nested functions capture keep their names (late binding)
+    assigned -= {z.id for b in arm_stmts for y in ast.walk(b) if isinstance(y, (ast.FunctionDef, ast.Lambda)) for z in ast.walk(y)
+                 if isinstance(z, ast.Name)}
+
+    def make_arm(value: Optional[ast.AST], j: int) -> List[ast.stmt]:
+      suffix = f'__d{counter[0]}_{j}'
+      if value is None:  # D[K] on a missing key
+        r = ast.Raise(exc=ast.Call(func=ast.Name(id='KeyError', ctx=ast.Load()), args=[copy.deepcopy(key)], keywords=[]), cause=None)
+        ast.copy_location(r, st)
+        ast.fix_missing_locations(r)
+        return [r]
+      if direct:
+        out = [copy.deepcopy(b) for b in rest]
+        sub = _SubstName(st.targets[0].id, value)
+        out = [sub.visit(b) for b in out]
+      else:
+        out = None
+      if out is None:
+        # embedded lookup: replace it inside a copy of the statement
+        idx_path = None
+        st_copy = copy.deepcopy(st)
+        # locate the copied lookup by position in a parallel walk
+        for a, b in zip(ast.walk(st), ast.walk(st_copy)):
+          if a is expr:
+            idx_path = b
+            break
+        st_copy = _ReplaceNode(idx_path, value).visit(st_copy)
+        out = [st_copy] + [copy.deepcopy(b) for b in rest]
+      ren = {a: a + suffix for a in assigned}
+      out = [_Rename(ren).visit(b) for b in out]
+      for b in out:
+        _simplify_calls(b, cls_name)
+        ast.fix_missing_locations(b)
+      out2: List[ast.stmt] = []
+      for b in out:
+        out2.append(b)
+      # clean the arm: constant tests, tuple unpacking of literals, simple locals
+      tmp = ast.FunctionDef(name='_arm', args=fn.args, body=out2 or [ast.Pass()], decorator_list=[], lineno=st.lineno, col_offset=0)
+      _fold_constant_tests(tmp)
+      _split_tuple_assigns(tmp, {})
+      _propagate_simple_locals(tmp.body, suffix, params)
+      for b in tmp.body:
+        _simplify_calls(b, cls_name)
+      _fold_constant_tests(tmp)
+      _trim_dead(tmp.body)
+      tmp.body = _splice_closures(tmp.body, closures, suffix)
+      return tmp.body
+
+    closures = {c.name: c for c in fn.body if isinstance(c, ast.FunctionDef)
+                and not (c.args.args or c.args.kwonlyargs or c.args.vararg or c.args.kwarg or c.args.posonlyargs)
+                and not c.decorator_list}
+    chain: Optional[ast.If] = None
+    last: Optional[ast.If] = None
+    for j, (k, v) in enumerate(zip(table.keys, table.values)):
+      test = ast.Compare(left=copy.deepcopy(key), ops=[ast.Eq()], comparators=[copy.deepcopy(k)])
+      node = ast.If(test=test, body=make_arm(v, j), orelse=[])
+      ast.copy_location(node, st)
+      ast.copy_location(test, st)
+      ast.fix_missing_locations(node)
+      if chain is None:
+        chain = node
+      else:
+        last.orelse = [node]
+      last = node
+    last.orelse = make_arm(None if raises else default, len(table.keys))
+    fn.body = body[:i] + [chain]
+    n += 1
+  return n
+
+
+def _expand_dispatch_tables(tree: ast.Module) -> int:
+  """`h = TABLE.get(K)` / `TABLE[K](...)` over a dict literal with enum/constant keys, at the top level of a function
+  body: the rest of the body is case-split on `K == key` with the looked-up value substituted, which turns a table
+  dispatch back into the if/elif chain the rules (and the other normalisations) understand."""
+  n = 0
+  counter = [0]
+  for st in tree.body:
+    if isinstance(st, ast.FunctionDef):
+      n += _expand_dispatch_in_function(st, tree, None, counter)
+    elif isinstance(st, ast.ClassDef):
+      for m in st.body:
+        if isinstance(m, ast.FunctionDef):
+          n += _expand_dispatch_in_function(m, tree, st.name, counter)
+  return n
+
+
 # --------------------------------------------------------------------------- filter loops -> comprehensions
 _PURE_FUNCS = {'len', 'isinstance', 'bool', 'int', 'float', 'str', 'tuple', 'set', 'frozenset', 'sorted', 'min', 'max', 'abs',
                'getattr', 'hasattr', 'type', 'id'}
@@ -1586,8 +1898,9 @@ def _propagate_param_aliases(fn: ast.FunctionDef) -> int:
 def normalise(tree: ast.Module, exclude: Optional[Set[str]] = None) -> int:
   """Inlines suitable private helpers in place; returns the number of inlined call sites."""
   ex = anchors() if exclude is None else exclude
+  n_disp = _expand_dispatch_tables(tree)
   inl = _Inliner(tree, ex)
-  n = inl.run()
+  n = inl.run() + n_disp
   n += _unroll_literal_loops(tree)
   records = _record_classes(tree)
   for x in ast.walk(tree):
